@@ -10,7 +10,7 @@ calls (`self.min()`, treated like fields), calls of whitelisted functions, tuple
 `*` (deref, ignored), `&` (ignored), binary `|| && == != < <= > >= + - * /`, parentheses,
 `if … { … } else if … { … } else { … }`, fixed-length array literals (→ tuples), constant indexing
 `e[0][1]` (resolved by the caller's substitution table, an unresolved index is an error), struct literals
-of whitelisted structs with all fields in declaration order, and `T::from(x)?` with `x : T` (identity).
+of whitelisted structs with all fields in declaration order (also through the `coord!` macro), and `T::from(x)?` with `x : T` (identity).
 
 Numbers become `Rat`, comparisons `decide (…)`, so that the result is a computable Lean term which
 can be compared (`rfl` / `simp`) with the hand-written model.
@@ -211,6 +211,12 @@ class Parser:
         if tk[0] == "id":
             self.eat()
             name = tk[1]
+            if name == "coord" and self.at("!"):
+                # the `coord! { x: e, y: e }` macro = the struct literal `Coord { x: e, y: e }`
+                self.eat()
+                name = "Coord"
+                if "Coord" not in self.structs or not self.at("{"):
+                    raise TranslateError("coord! outside the fragment")
             if name in self.structs and self.at("{"):
                 # struct literal `Name { f: e, … }`: fields must come in the declared order
                 self.eat()
